@@ -94,6 +94,23 @@ pub fn dump(out: &str, seed: u64) -> Result<Value, String> {
                 t.row(s, "hpke_seal_to", n.clone(), "invalid", each(&|p| res(p.hpke_seal(&k, b"info", None, b"pt"), |_| String::new())));
             }
         }
+        // edge-case signature inputs (degenerate keys and signatures): whatever the verdict, it is the same everywhere
+        {
+            let sig_len = { let (sk, _) = provs[0].1.signature_key_generate().map_err(|e| format!("{e:?}"))?; provs[0].1.sign(&sk, b"x").map_err(|e| format!("{e:?}"))?.len() };
+            let pk_len = provs[0].1.signature_key_generate().map_err(|e| format!("{e:?}"))?.1.as_bytes().len();
+            let mut cases: Vec<(String, Vec<u8>, Vec<u8>, Vec<u8>)> = vec![];
+            let mut neutral_pk = vec![0u8; pk_len]; neutral_pk[0] = 1;
+            let mut neutral_sig = vec![0u8; sig_len]; neutral_sig[0] = 1;
+            for m in 0u8..64 {
+                cases.push((format!("zero-key-zero-sig:msg{m}"), vec![0; pk_len], vec![0; sig_len], vec![m]));
+                cases.push((format!("neutral-key-neutral-sig:msg{m}"), neutral_pk.clone(), neutral_sig.clone(), vec![m]));
+            }
+            cases.push(("ff-key-ff-sig".into(), vec![0xff; pk_len], vec![0xff; sig_len], b"m".to_vec()));
+            cases.push(("neutral-key-zero-sig".into(), neutral_pk.clone(), vec![0; sig_len], b"m".to_vec()));
+            for (name, pk, sig, msg) in cases {
+                t.row(s, "verify_edge", name, "det", each(&|p| res(p.verify(&SignaturePublicKey::new_slice(&pk), &sig, &msg), |_| String::new())));
+            }
+        }
         // --- randomised: every ordered pair (producer > checker)
         let mut pairs = |op: &str, input: String, kind: &str, f: &dyn Fn(&DynSuite, &DynSuite) -> (String, String)| {
             let mut r = vec![];
